@@ -138,8 +138,10 @@ def opOffs : RM Res := do
   let hasTool ← rB; let hasBase ← rB; let envLen ← rN
   let own ← rSafety
   let cands ← rList (do
-    let c ← rJ6; let comp ← rB; let col ← rB; let tb ← rTable
-    pure (c, comp, col, tb))
+    let c ← rJ6; let comp ← rB; let col ← rB
+    let u1 ← rB; let u2 ← rB; let u3 ← rB; let u4 ← rB; let u5 ← rB; let u6 ← rB
+    let tb ← rTable
+    pure (c, comp, col, tb, [u1, u2, u3, u4, u5, u6]))
   let pool ← rN
   let out ← rOut (rList rJ6)
   match out with
@@ -148,20 +150,25 @@ def opOffs : RM Res := do
     let first := fun (l : List (Nat × Nat)) => l.head?
     -- model: scene of a candidate = its table (looked up by the candidate's bits)
     let sceneAt := fun (c : J6 Float) =>
-      match cands.find? (fun (cc, _, _, _) => bitEqJ6 cc c) with
-      | some (_, _, _, tb) => sceneOf envLen hasTool hasBase tb false
+      match cands.find? (fun (cc, _, _, _, _) => bitEqJ6 cc c) with
+      | some (_, _, _, tb, _) => sceneOf envLen hasTool hasBase tb false
       | none => sceneOf envLen hasTool hasBase [] false
-    let model := nonCollidingOffsets sceneAt own k.constraints q f t first
+    -- which links keep their pose (reported by the harness from forward_with_joint_poses)
+    let unchanged := fun (c : J6 Float) (i : Nat) =>
+      match cands.find? (fun (cc, _, _, _, _) => bitEqJ6 cc c) with
+      | some (_, _, _, _, us) => us.getD i false
+      | none => false
+    let model := nonCollidingOffsets sceneAt unchanged own k.constraints q f t first
     let mc := offsetCandidates q f t
     let candOk := closeList bitEqJ6 (mc.map (·.2)) (cands.map (·.1))
     -- ambiguity: any candidate with a threshold pair
-    let amb := cands.any (fun (_, _, _, tb) =>
+    let amb := cands.any (fun (_, _, _, tb, _) =>
       let sc := sceneOf envLen hasTool hasBase tb false
       (tasks sc own []).any (ambiguous sc own))
     let ok := candOk && (amb || closeList bitEqJ6 offered model)
     -- property: offered = candidates that are within limits and free by the full check of the same robot
-    let want := (cands.filter (fun (_, comp, col, _) => comp && !col)).map (fun (c, _, _, _) => c)
-    let colliding := offered.find? (fun o => cands.any (fun (c, _, col, _) => bitEqJ6 c o && col))
+    let want := (cands.filter (fun (_, comp, col, _, _) => comp && !col)).map (fun (c, _, _, _, _) => c)
+    let colliding := offered.find? (fun o => cands.any (fun (c, _, col, _, _) => bitEqJ6 c o && col))
     let withheld := want.find? (fun w => !(offered.any (bitEqJ6 w)))
     let preds := [P "C14.nothing_colliding" (amb || colliding.isNone, s!"offered {colliding.map showJ6} is reported colliding by the full check"),
                   P "C14.nothing_withheld" (amb || withheld.isNone, s!"{withheld.map showJ6} is legal and free but not offered"),
